@@ -1023,6 +1023,17 @@ pub fn setup(w: &mut World) -> VResult<()> {
             );
             w.ext.ext_sender = Some((sk, sid));
         }
+        // one C16 world in three: the observer rotated its signature key and the group lists both entries, the old key
+        // first (same credential); the observer signs with the new key and has to name the second entry
+        if w.cfg.property == "C16" && crate::prng::mix(&[w.seed, 0x16e0]) % 3 == 0 && w.ext.ext_sender.is_some() {
+            if let Ok((_sk0, pk0)) = csp.signature_key_generate() {
+                w.ext.ext_sender_old = Some(mls_rs::identity::SigningIdentity::new(
+                    mls_rs::identity::basic::BasicCredential::new(b"observer".to_vec()).into_credential(),
+                    pk0,
+                ));
+                w.stats.probe("external-sender-listed-twice-after-key-rotation");
+            }
+        }
     }
     w.create_group(0)?;
     if w.cfg.knob("groups") == Some(2) && w.parties.len() >= 2 {
